@@ -20,7 +20,7 @@ func main() {
 	harness := flag.String("harness", "", "comma separated <pkgpath>.<Func> entry points")
 	initPkgs := flag.String("init", "", "comma separated package paths whose init is executed")
 	out := flag.String("out", "", "result JSON file")
-	solverCmd := flag.String("solver", "chain", "solver command line, or \"chain\" = z3 4.8.12 -> z3 5.1.0 -> cvc5")
+	solverCmd := flag.String("solver", "chain", "solver command line, or \"chain\" = z3 4.8.12 -> cvc5 -> z3 5.1.0")
 	qTimeout := flag.Int("qtimeout", 20000, "per query timeout (ms)")
 	maxPaths := flag.Int("maxpaths", 20000, "path budget per harness")
 	maxDec := flag.Int("maxdecisions", 400, "symbolic decisions per path")
